@@ -5,6 +5,8 @@ pub mod c07;
 pub mod c10;
 pub mod c13;
 pub mod c14;
+#[cfg(feature = "instrumented")]
+pub mod c16;
 pub mod c17;
 pub mod life;
 
@@ -30,6 +32,8 @@ pub fn plan(prop: &str, tier: Tier, seed: u64) -> Option<Plan> {
     "C03" => Some(c03::plan(tier, seed)),
     "C04" => Some(c04::plan(tier, seed)),
     "C14" => Some(c14::plan(tier, seed)),
+    #[cfg(feature = "instrumented")]
+    "C16" => Some(c16::plan(tier, seed)),
     "C07" => Some(c07::plan(tier, seed)),
     "C13" => Some(c13::plan(tier, seed)),
     "C10" => Some(c10::plan(tier, seed)),
@@ -54,6 +58,8 @@ pub fn by_name(name: &str) -> Option<Arc<dyn Harness>> {
     "C03" => c03::by_name(name),
     "C04" => c04::by_name(name),
     "C14" => c14::by_name(name),
+    #[cfg(feature = "instrumented")]
+    "C16" => c16::by_name(name),
     "C07" => c07::by_name(name),
     "C13" => c13::by_name(name),
     "C10" => c10::by_name(name),
